@@ -299,19 +299,20 @@ class C16Machine(Machine):
     def generate(self, rng, tier, index):
         spec = fcsgen.gen_spec(rng, small=True)
         b, info = fcs_ref.build(spec)
-        arm = rng.wchoice([('truncate_all', 45), ('field', 30), ('field+truncate', 13), ('field+field', 12)])
+        arm = rng.wchoice([('truncate_all', 42), ('field', 28), ('field+truncate', 12), ('field+field', 10),
+                           ('field+field+truncate', 8)])
         case = {'spec': spec, 'fields': [], 'cuts': None}
         if arm == 'truncate_all':
             case['cuts'] = 'all'
         else:
-            nf = 2 if arm == 'field+field' else 1
+            nf = 2 if arm.startswith('field+field') else 1
             fs = []
             for _ in range(nf):
                 fs.append(fcsgen.gen_field_fault(rng, spec, info))
             if nf == 2 and fs[0]['field'] == fs[1]['field']:
                 fs = fs[:1]
             case['fields'] = fs
-            if arm == 'field+truncate':
+            if arm.endswith('truncate'):
                 b2, info2 = fcs_ref.build(fcsgen.apply_field_faults(spec, fs))
                 n = rng.randint(1, 12)
                 case['cuts'] = sorted({rng.randint(0, len(b2)) for _ in range(n)})
